@@ -245,5 +245,47 @@ def run(ctx):
         res.case(canon_json([text, history]), {"text": text[:300], "history": history[:6]} if len(res.samples) < 3 else None)
         res.count("histories")
         res.count("steps", len(history))
+    # --- model names registered by the user (in one or several calls) are part of the parser: parsing the same text again, or
+    # looking at the grammar first, gives the answers of a fresh instance on which the same names were registered
+    reg_text = ("Alias MyD0 D0\nAlias MyAntiD0 anti-D0\nChargeConj MyD0 MyAntiD0\nDecay B0\n0.6 K+ MODEL_A PHSP;\n0.4 K+ pi- MODEL_C 1.0 2.0;\nEnddecay\n"
+                "Decay MyD0\n1.0 K- pi+ PHOTOS MODEL_B;\nEnddecay\nCDecay MyAntiD0\nCDecay anti-B0\nCopyDecay B0copy B0\n")
+
+    def registered(calls):
+        q = DecFileParser.from_string(reg_text)
+        if calls == 1:
+            q.load_additional_decay_models("MODEL_A", "MODEL_B", "MODEL_C")
+        elif calls == 2:
+            q.load_additional_decay_models("MODEL_A")
+            q.load_additional_decay_models("MODEL_B", "MODEL_C")
+        else:
+            for m_ in ("MODEL_A", "MODEL_B", "MODEL_C"):
+                q.load_additional_decay_models(m_)
+        return q
+
+    for calls in (1, 2, 3):
+        f = registered(calls)
+        f.parse()
+        ref_reg = full_snapshot(f, chain_budget=200)
+        for hist_ in (["parse", "parse"], ["grammar", "parse"], ["parse", "queries", "parse(False)", "parse"], ["grammar", "parse", "grammar", "parse"]):
+            q = registered(calls)
+            try:
+                for step_ in hist_:
+                    if step_ == "parse":
+                        q.parse()
+                    elif step_ == "parse(False)":
+                        parse_with(q, False)
+                    elif step_ == "grammar":
+                        q.grammar()
+                    else:
+                        q.list_decay_modes("B0"), q.build_decay_chains("B0"), q.dict_aliases()
+                got_reg = full_snapshot(q, chain_budget=200)
+            except Exception as e:
+                got_reg = {"raised": f"{type(e).__name__}: {str(e)[:150]}"}
+            res.case(canon_json([calls, hist_]))
+            res.count("registered_model_histories")
+            if canon_json(got_reg) != canon_json(ref_reg):
+                diff = [k for k in ref_reg if canon_json(ref_reg[k]) != canon_json(got_reg.get(k))] if "raised" not in got_reg else got_reg
+                res.violation("with user-registered model names, the answers after a history differ from those of a fresh instance",
+                              {"kind": "history", "text": reg_text, "registration_calls": calls, "history": hist_}, impl=diff, clause="history independence")
     batch.run()
     return res.done()
